@@ -16,6 +16,7 @@ def chunkF (n : Nat) (l : List Float) : Nat → List (List Float)
 structure Extra where
   rabs : Option Rat
   fexact : Bool
+  flat0 : Bool := false
 
 /-- lhs/rhs of the decision in the form the harness needs for the margin: mean filter `d²` against
 `t²·s`, median filter `d` against `t·s`; `rhs = null` for an infinite threshold -/
@@ -25,7 +26,7 @@ def jCell (sq : Bool) (t : Option Rat) (c : Cell) (e : Extra) : Json :=
   let rhs := t.map (fun t => if sq then t * t * c.s else t * c.s)
   let o := if sq then c.outlierSq t else c.outlierLin t
   jObj [("x", jRat c.x), ("lhs", jRat lhs), ("rhs", jOpt jRat rhs), ("repl", jRat c.repl),
-        ("rabs", jOpt jRat rabs), ("fexact", jBool e.fexact),
+        ("rabs", jOpt jRat rabs), ("fexact", jBool e.fexact), ("flat0", jBool e.flat0),
         ("outlier", jBool o), ("out", jRat (if sq then c.outSq t else c.outLin t))]
 
 def jSpec (sq : Bool) (t : Option Rat) (s : SpecPx) (e : Extra) : Json :=
@@ -42,20 +43,24 @@ def specRabs (want : Bool) : SpecPx → Option Rat
 def cellRabs (want : Bool) (cells cellsA : List Cell) : List (Option Rat) :=
   if want then cellsA.map (fun c => some c.repl) else cells.map (fun _ => none)
 
-def zip3J (f : Cell → Extra → Json) (a : List Cell) (b : List (Option Rat)) (c : List Bool) : Json :=
-  Json.arr (zip3With (fun x r e => f x ⟨r, e⟩) a b c).toArray
+def zip3J (f : Cell → Extra → Json) (a : List Cell) (b : List (Option Rat)) (c : List (Bool × Bool)) : Json :=
+  Json.arr (zip3With (fun x r e => f x ⟨r, e.1, e.2⟩) a b c).toArray
 
-def noExtra : Extra := ⟨none, false⟩
+def noExtra : Extra := ⟨none, false, false⟩
 
 /-- the `(2h+1)` neighbourhood of an interior pixel and the same without the pixel (1-D) -/
-def specExact1 (p : Nat) (emin : Int) (t : Option Rat) (b : Nat) (x : List Rat) (i : Nat) : Bool :=
+def specExact1 (p : Nat) (emin : Int) (t : Option Rat) (b : Nat) (x : List Rat) (i : Nat) : Bool × Bool :=
   let h := b / 2
-  interior b x.length i &&
-    meanDecisionExact p emin t (at1 x i) (slice (i - h) (2 * h + 1) x) (slice (i - h) h x ++ slice (i + 1) h x)
+  let w := slice (i - h) (2 * h + 1) x
+  let o := slice (i - h) h x ++ slice (i + 1) h x
+  if interior b x.length i then (meanDecisionExact p emin t (at1 x i) w o, flatSpreadExact p emin w o) else (false, false)
 
-def specExact2 (p : Nat) (emin : Int) (t : Option Rat) (b0 b1 : Nat) (x : List (List Rat)) (i j : Nat) : Bool :=
-  interior b0 x.length i && interior b1 (x.headD []).length j &&
-    meanDecisionExact p emin t (at2 x i j) (nbhd2 (b0 / 2) (b1 / 2) x i j) (others2 (b0 / 2) (b1 / 2) x i j)
+def specExact2 (p : Nat) (emin : Int) (t : Option Rat) (b0 b1 : Nat) (x : List (List Rat)) (i j : Nat) : Bool × Bool :=
+  let w := nbhd2 (b0 / 2) (b1 / 2) x i j
+  let o := others2 (b0 / 2) (b1 / 2) x i j
+  if interior b0 x.length i && interior b1 (x.headD []).length j then
+    (meanDecisionExact p emin t (at2 x i j) w o, flatSpreadExact p emin w o)
+  else (false, false)
 
 def handle (op : String) (req : Json) : R Json := do
   match op with
@@ -85,12 +90,13 @@ def handle (op : String) (req : Json) : R Json := do
     | [n], [b] =>
       let cells := if sq then meanCellsP1 πmean b data else medianCellsP1 πmed median b data
       let cellsA := cellRabs wantAbs cells (if wantAbs then meanCellsP1 πmean b (abs1 data) else [])
-      let cellsE := if sq then cellsG1 πmean (fun xi w => meanDecisionExact fp femin t xi w (w.eraseIdx (b / 2))) b data
-        else cells.map (fun _ => false)
+      let cellsE := if sq then cellsG1 πmean (fun xi w =>
+            (meanDecisionExact fp femin t xi w (w.eraseIdx (b / 2)), flatSpreadExact fp femin w (w.eraseIdx (b / 2)))) b data
+        else cells.map (fun _ => (false, false))
       let spec := (List.range n).map (fun i =>
         let s := if sq then specMean1 b data i else specMedian1 b data i
-        jSpec sq t s ⟨if wantAbs then specRabs true (specMean1 b (abs1 data) i) else none,
-                      sq && specExact1 fp femin t b data i⟩)
+        let e := if sq then specExact1 fp femin t b data i else (false, false)
+        jSpec sq t s ⟨if wantAbs then specRabs true (specMean1 b (abs1 data) i) else none, e.1, e.2⟩)
       pure (jObj [("shape", jList jNat [cells.length]),
                   ("model", zip3J (jCell sq t) cells cellsA cellsE), ("spec", Json.arr spec.toArray),
                   ("unchanged", jBool (mustBeUnchanged t data))])
@@ -100,8 +106,8 @@ def handle (op : String) (req : Json) : R Json := do
       let cells := if sq then meanCellsP2 πmean b0 b1 x else medianCellsP2 πmed median b0 b1 x
       let spec := (List.range n0).flatMap (fun i => (List.range n1).map (fun j =>
         let s := if sq then specMean2 b0 b1 x i j else specMedian2 b0 b1 x i j
-        jSpec sq t s ⟨if wantAbs then specRabs true (specMean2 b0 b1 xa i j) else none,
-                      sq && specExact2 fp femin t b0 b1 x i j⟩))
+        let e := if sq then specExact2 fp femin t b0 b1 x i j else (false, false)
+        jSpec sq t s ⟨if wantAbs then specRabs true (specMean2 b0 b1 xa i j) else none, e.1, e.2⟩))
       let rowlens := cells.map (·.length)
       let shp := match rowlens with
         | [] => [0, 0]
@@ -109,8 +115,9 @@ def handle (op : String) (req : Json) : R Json := do
       if rowlens.any (· != shp.getD 1 0) then throw "ragged model output"
       let cellsA := cellRabs wantAbs cells.flatten (if wantAbs then (meanCellsP2 πmean b0 b1 xa).flatten else [])
       let cellsE := if sq then (cellsG2 πmean (fun xi w =>
-            meanDecisionExact fp femin t xi w.flatten (maskCentre2 (b0 / 2) (b1 / 2) w)) b0 b1 x).flatten
-        else cells.flatten.map (fun _ => false)
+            (meanDecisionExact fp femin t xi w.flatten (maskCentre2 (b0 / 2) (b1 / 2) w),
+             flatSpreadExact fp femin w.flatten (maskCentre2 (b0 / 2) (b1 / 2) w))) b0 b1 x).flatten
+        else cells.flatten.map (fun _ => (false, false))
       pure (jObj [("shape", jList jNat shp),
                   ("model", zip3J (jCell sq t) cells.flatten cellsA cellsE), ("spec", Json.arr spec.toArray),
                   ("unchanged", jBool (mustBeUnchanged t data))])
